@@ -187,8 +187,17 @@ struct Prec {
 	std::map<std::string, std::pair<int, char>> tok;   /* grammar token -> (level index, l/r/n) */
 	std::map<std::string, std::string> lexToTok;       /* "+" -> T_PLUS (binary tokens) */
 	int Level(const std::string& t) const { auto it = tok.find(t); return it == tok.end() ? -1 : it->second.first; }
+	/* the DOCUMENTED table (doc/17-language-reference.md "Operators", read from the document by the translator on every run):
+	 * operator text -> documented precedence (1 = binds tightest); 1 = postfix forms, 2 = prefix operators, 3..13 = binary operators */
+	std::map<std::string, int> docBinary, docPrefix;
+	int docPostfix = -1;
 };
 static Prec g_Prec;
+/* true while a program is printed with the parentheses the DOCUMENTED table requires (third printing, observation `doc=`) */
+static bool g_DocMode = false;
+static int DocIndex(int documentedLevel) { return documentedLevel < 1 ? -1 : 100 - documentedLevel; }   /* larger = binds tighter, like the grammar's level index */
+/* the document has no associativity column: binary operators associate to the left, relational and equality operators do not chain */
+static char DocAssoc(const std::string& sym) { return (sym == "<" || sym == ">" || sym == "<=" || sym == ">=" || sym == "==" || sym == "!=") ? 'n' : 'l'; }
 static FILE *g_Out = nullptr;   /* the protocol stream: flex's default rule ECHOes unmatched input to stdout */
 
 static bool LoadPrec(const char *path)
@@ -208,9 +217,15 @@ static bool LoadPrec(const char *path)
 			level++;
 		} else if (kind == "lex") { std::string a, b; is >> a >> b; lex[a] = b; }
 		else if (kind == "binary") { std::string a, b; is >> a >> b; binary.push_back(a); }
+		else if (kind == "doc") {
+			int l = 0; std::string op; is >> l >> op;
+			if (l == 1) g_Prec.docPostfix = 1;
+			else if (l == 2) g_Prec.docPrefix[op] = l;
+			else if (l >= 3 && l <= 13) g_Prec.docBinary[op] = l;
+		}
 	}
 	for (auto& b : binary) if (lex.count(b)) g_Prec.lexToTok[lex[b]] = b;
-	return level > 10 && g_Prec.lexToTok.size() >= 20;
+	return level > 10 && g_Prec.lexToTok.size() >= 20 && g_Prec.docBinary.size() >= 20 && g_Prec.docPrefix.size() >= 4 && g_Prec.docPostfix == 1;
 }
 
 static const int ATOM = 1000;
@@ -218,6 +233,14 @@ static const int ATOM = 1000;
 static int NodeLevel(const Node& n)
 {
 	const std::string& t = n.tag;
+	if (g_DocMode) {
+		auto lookup = [](const std::map<std::string, int>& m, const std::string& k) { auto it = m.find(k); return it == m.end() ? -1 : DocIndex(it->second); };
+		if (t == "op" || t == "&&" || t == "||" || t == "in" || t == "!in") return lookup(g_Prec.docBinary, t == "op" ? n.s : t);
+		if (t == "!" || t == "~") return lookup(g_Prec.docPrefix, t);
+		if (t == "neg") return lookup(g_Prec.docPrefix, "-");
+		if (t == "pos") return lookup(g_Prec.docPrefix, "+");
+		if (t == "idx" || t == "dot" || t == "call") return DocIndex(g_Prec.docPostfix);
+	}
 	if (t == "op" || t == "&&" || t == "||" || t == "in" || t == "!in") {
 		auto it = g_Prec.lexToTok.find(t == "op" ? n.s : t);
 		return it == g_Prec.lexToTok.end() ? -1 : g_Prec.Level(it->second);
@@ -310,6 +333,7 @@ struct Printer {
 			char assoc = 'l';
 			auto it = g_Prec.lexToTok.find(sym);
 			if (it != g_Prec.lexToTok.end()) assoc = g_Prec.tok[it->second].second;
+			if (g_DocMode) assoc = DocAssoc(sym);
 			return Operand(n.k[0], l, assoc != 'l') + " " + sym + " " + Operand(n.k[1], l, assoc != 'r');
 		}
 		if (t == "!" || t == "~") {
@@ -365,10 +389,13 @@ struct Printer {
 	}
 };
 
-static std::string PrintProgram(const Node& prog, bool full)
+static std::string PrintProgram(const Node& prog, bool full, bool doc = false)
 {
 	Printer p{full};
-	return p.Stmts(prog.k);
+	g_DocMode = doc && !full;
+	std::string o = p.Stmts(prog.k);
+	g_DocMode = false;
+	return o;
 }
 
 /* ------------------------------------------------------------------------------------------------ evaluation */
@@ -1524,6 +1551,63 @@ static Node Deep(const std::string& kind, int n)
 	return NL("blk", { e });
 }
 
+/* ------------------------------------------------------------------------------------------------ operator table, exhaustively (family `prec`)
+ * Every ORDERED pair of the 20 binary operators in both tree shapes ((a o1 b) o2 c and a o1 (b o2 c)), every prefix operator against
+ * every binary operator in three shapes (p(a o b), p(a) o b, a o p(b)), every prefix/binary operator against the three postfix forms:
+ * the enumeration index selects the shape, the seed only the operand values.  Printed per the grammar's table, fully parenthesised and
+ * per the DOCUMENTED table; all three must mean the same (clauses precedence_as_declared / precedence_as_documented). */
+static const std::vector<std::string> g_BinOps = { "*", "/", "%", "+", "-", "<<", ">>", "<", ">", "<=", ">=", "in", "!in", "==", "!=", "&", "^", "|", "&&", "||" };
+static const std::vector<std::string> g_PreOps = { "!", "~", "neg", "pos" };
+
+static long PrecShapes() { return 2L * g_BinOps.size() * g_BinOps.size() + 3L * g_PreOps.size() * g_BinOps.size() + 3L * (g_PreOps.size() + g_BinOps.size()); }
+
+static Node PrecBin(const std::string& o, Node a, Node b)
+{
+	if (o == "&&" || o == "||" || o == "in" || o == "!in") return N2(o, a, b);
+	return N2("op", a, b, o);
+}
+
+static Node PrecCase(long shape, vh::Rng& rng)
+{
+	static const std::vector<std::string> nums = { "0", "1", "2", "3", "5", "6", "7", "12", "9", "4" };
+	auto num = [&]() { return Num(nums[rng.below(nums.size())]); };
+	auto arr = [&]() { std::vector<Node> ks; int n = 1 + rng.below(3); for (int i = 0; i < n; i++) ks.push_back(rng.below(4) ? num() : N0(rng.coin() ? "b1" : "b0")); return NL("arr", ks); };
+	/* the operand in the right slot of in/!in is an array (anything else raises on every reading) */
+	auto leafFor = [&](const std::string& o, bool rightSlot) { return (rightSlot && (o == "in" || o == "!in")) ? arr() : num(); };
+	long nb = (long)g_BinOps.size(), np = (long)g_PreOps.size();
+	Node e;
+	if (shape < 2 * nb * nb) {
+		const std::string& o1 = g_BinOps[(shape / 2) / nb];
+		const std::string& o2 = g_BinOps[(shape / 2) % nb];
+		if (shape % 2 == 0) e = PrecBin(o2, PrecBin(o1, leafFor(o1, false), leafFor(o1, true)), leafFor(o2, true));     /* (a o1 b) o2 c */
+		else {
+			Node inner = PrecBin(o2, leafFor(o2, false), leafFor(o2, true));
+			/* a in (b o2 c): only + and - yield arrays */
+			if ((o1 == "in" || o1 == "!in") && (o2 == "+" || o2 == "-")) inner = PrecBin(o2, arr(), arr());
+			e = PrecBin(o1, leafFor(o1, false), inner);                                                                      /* a o1 (b o2 c) */
+		}
+	} else if ((shape -= 2 * nb * nb) < 3 * np * nb) {
+		const std::string& p = g_PreOps[(shape / 3) / nb];
+		const std::string& o = g_BinOps[(shape / 3) % nb];
+		if (shape % 3 == 0) e = N1(p, PrecBin(o, leafFor(o, false), leafFor(o, true)));
+		else if (shape % 3 == 1) e = PrecBin(o, N1(p, leafFor(o, false)), leafFor(o, true));
+		else e = PrecBin(o, leafFor(o, false), N1(p, leafFor(o, true)));
+	} else {
+		shape -= 3 * np * nb;
+		long k = shape / 3;
+		/* postfix forms bind tighter than everything: p(x.f()), p(x[i]), (a o b[i]), (a o s.len()) */
+		Node post;
+		switch (shape % 3) {
+			case 0: post = N2("idx", arr(), Num("0")); break;
+			case 1: { std::vector<Node> ks; ks.push_back(N1("dot", arr(), "len")); post = NL("call", ks); break; }
+			default: post = N1("dot", NL("dict", { N2("set", N0("v", "a"), num(), "=") }), "a"); break;
+		}
+		if (k < np) e = N1(g_PreOps[k], post);
+		else { const std::string& o = g_BinOps[k - np]; e = (o == "in" || o == "!in") ? PrecBin(o, post, arr()) : PrecBin(o, num(), post); }
+	}
+	return NL("blk", { e });
+}
+
 /* ------------------------------------------------------------------------------------------------ hostile texts */
 static std::string Mutate(vh::Rng& rng, std::string s)
 {
@@ -1590,10 +1674,18 @@ static std::string Observe(const Case& c, int phase, std::string *same = nullptr
 	if (c.kind == 'X') return RunText(c.text, true);
 	if (phase == 0) return RunText(PrintProgram(c.ast, false), false, same);
 	if (phase == 1) return RunText(PrintProgram(c.ast, true), false);
+	if (phase == 3) {
+		/* the text a reader of the DOCUMENT would write: evaluated only when it differs from the text printed per the grammar's table
+		 * (the same text was just compiled and evaluated twice; `again` is the fresh compilation) */
+		std::string d = PrintProgram(c.ast, false, true);
+		if (d == PrintProgram(c.ast, false)) { if (same) *same = "0"; return ""; }
+		if (same) *same = "1";
+		return RunText(d, false);
+	}
 	return RunText(PrintProgram(c.ast, false), false);
 }
 
-struct ShMem { volatile long index; volatile long done; volatile int phase; char partial[4][1 << 16]; };
+struct ShMem { volatile long index; volatile long done; volatile int phase; char partial[5][1 << 16]; };
 
 /* runs cases[from..) in a forked child; returns the index of the case that killed the child, or -1 */
 template<typename GetCase>
@@ -1612,7 +1704,7 @@ static void RunAll(long total, GetCase getCase)
 				Case c = getCase(i);
 				sh->index = i;
 				sh->phase = 0;
-				sh->partial[0][0] = sh->partial[1][0] = sh->partial[2][0] = sh->partial[3][0] = 0;
+				sh->partial[0][0] = sh->partial[1][0] = sh->partial[2][0] = sh->partial[3][0] = sh->partial[4][0] = 0;
 				if (i != confirm) {
 					std::string op = OpPart(c);
 					fputs(op.c_str(), g_Out); fputs(" | ", g_Out); fflush(g_Out);
@@ -1623,15 +1715,16 @@ static void RunAll(long total, GetCase getCase)
 					alarm(0);
 					fputs(r.c_str(), g_Out);
 				} else {
-					std::string r[3], same;
-					for (int ph = 0; ph < 3; ph++) {
+					std::string r[4], same, docdiff;
+					for (int ph = 0; ph < 4; ph++) {
 						sh->phase = ph;
-						r[ph] = Observe(c, ph, ph == 0 ? &same : nullptr);
+						r[ph] = Observe(c, ph, ph == 0 ? &same : (ph == 3 ? &docdiff : nullptr));
+						if (ph == 3 && docdiff == "0") r[3] = r[0];
 						strncpy(sh->partial[ph], r[ph].c_str(), sizeof(sh->partial[ph]) - 1);
-						if (ph == 0) strncpy(sh->partial[3], same.c_str(), sizeof(sh->partial[3]) - 1);
+						if (ph == 0) strncpy(sh->partial[4], same.c_str(), sizeof(sh->partial[4]) - 1);
 					}
 					alarm(0);
-					fprintf(g_Out, "min=%s full=%s again=%s same=%s lits=%s", r[0].c_str(), r[1].c_str(), r[2].c_str(), same.c_str(), LitsOf(c).c_str());
+					fprintf(g_Out, "min=%s full=%s again=%s same=%s doc=%s docdiff=%s lits=%s", r[0].c_str(), r[1].c_str(), r[2].c_str(), same.c_str(), r[3].c_str(), docdiff.c_str(), LitsOf(c).c_str());
 				}
 				fputs("\n", g_Out); fflush(g_Out);
 				sh->done = i;
@@ -1659,11 +1752,11 @@ static void RunAll(long total, GetCase getCase)
 		Case c = getCase(i);
 		if (c.kind == 'X') fprintf(g_Out, "%s\n", what.c_str());
 		else {
-			std::string r[3];
-			for (int ph = 0; ph < 3; ph++) r[ph] = ph < sh->phase ? std::string(sh->partial[ph]) : what;
+			std::string r[4];
+			for (int ph = 0; ph < 4; ph++) r[ph] = ph < sh->phase ? std::string(sh->partial[ph]) : what;
 			/* died in phase 0: either evaluation of the one compiled expression may have been the fatal one */
-			std::string same = sh->phase > 0 ? std::string(sh->partial[3]) : what;
-			fprintf(g_Out, "min=%s full=%s again=%s same=%s lits=-\n", r[0].c_str(), r[1].c_str(), r[2].c_str(), same.c_str());
+			std::string same = sh->phase > 0 ? std::string(sh->partial[4]) : what;
+			fprintf(g_Out, "min=%s full=%s again=%s same=%s doc=%s docdiff=%d lits=-\n", r[0].c_str(), r[1].c_str(), r[2].c_str(), same.c_str(), r[3].c_str(), sh->phase == 3 ? 1 : 0);
 		}
 		fflush(g_Out);
 		next = i + 1;
@@ -1708,7 +1801,7 @@ int main(int argc, char **argv)
 			for (long i = 0; i < (long)lines.size(); i++) {
 				Case c = getLine(i);
 				if (c.kind == 'X') fprintf(g_Out, "--- X %s\n%s\n", c.id.c_str(), c.text.c_str());
-				else fprintf(g_Out, "--- P %s (min)\n%s\n--- (full)\n%s\n", c.id.c_str(), PrintProgram(c.ast, false).c_str(), PrintProgram(c.ast, true).c_str());
+				else fprintf(g_Out, "--- P %s (min)\n%s\n--- (full)\n%s\n--- (doc)\n%s\n--- (end)\n", c.id.c_str(), PrintProgram(c.ast, false).c_str(), PrintProgram(c.ast, true).c_str(), PrintProgram(c.ast, false, true).c_str());
 			}
 			fflush(g_Out);
 			_exit(0);
@@ -1727,12 +1820,14 @@ int main(int argc, char **argv)
 	}
 	long nDeep = (long)deep.size();
 	long nTheme = thorough ? 30000 : 5000;   /* ten themed families, a tenth each */
-	long total = nProg + nExpr + nChaos + nHostile + nDeep + nTheme;
+	long nPrec = PrecShapes() * (thorough ? 8 : 2);   /* every shape of the operator table, 2 (8) draws of operand values each */
+	long total = nProg + nExpr + nChaos + nHostile + nDeep + nTheme + nPrec;
 	RunAll(total, [&](long i) {
 		Case c;
 		c.id = std::to_string(i);
 		uint64_t s = seed * 0x9e3779b97f4a7c15ULL + (uint64_t)i * 0xbf58476d1ce4e5b9ULL + 12345;
-		if (i < nProg) { Gen g(s, 4); c.kind = 'P'; c.ast = g.Program(); }
+		if (i >= total - nPrec) { vh::Rng r(s); long j = i - (total - nPrec); c.kind = 'P'; c.id = "prec" + std::to_string(j); c.ast = PrecCase(j % PrecShapes(), r); }
+		else if (i < nProg) { Gen g(s, 4); c.kind = 'P'; c.ast = g.Program(); }
 		else if (i < nProg + nExpr) { Gen g(s, 4); c.kind = 'P'; c.ast = g.ExprProgram(); }
 		else if (i < nProg + nExpr + nChaos) { Gen g(s, 120); c.kind = 'P'; c.ast = (i & 1) ? g.Program() : g.ExprProgram(); }
 		else if (i < nProg + nExpr + nChaos + nHostile) {
